@@ -1371,8 +1371,9 @@ def expand_module(tree: ast.Module, modname: str) -> Tuple[int, List[str]]:
         return 0, []  # no vocabulary available: expanding everything would change what the rules were written against
     # a module the rules never saw has no anchors: all of its helpers may be expanded
     known = kf.get(modname, set())
+    la = lower_expressions(tree, modname) + inline_local_aliases(tree, modname)
     lm = lower_match(tree)
-    ud = undo_decorators(tree, known) + run_init_subclass(tree, known)
+    ud = la + undo_singledispatch(tree) + undo_decorators(tree, known) + run_init_subclass(tree, known)
     nc = propagate_new_constants(tree, modname) + len(lm)
     te = TableEvaluator(tree, modname)
     nt = te.run() + nc
@@ -1970,8 +1971,145 @@ def set_program_index(trees: Dict[str, ast.Module]) -> None:
                 defined.add("*")  # dynamic attribute creation on the object itself: nothing can be called absent
             elif isinstance(n, ast.Attribute) and n.attr == "__dict__" and isinstance(n.value, ast.Name) and n.value.id in ("self", "cls"):
                 defined.add("*")
+    calls: Dict[str, Set[str]] = {}
+    stores: Dict[str, Set[str]] = {}
+    for t in trees.values():
+        for f in ast.walk(t):
+            if isinstance(f, (ast.FunctionDef, ast.AsyncFunctionDef)):
+                cs = calls.setdefault(f.name, set())
+                ss = stores.setdefault(f.name, set())
+                for n in ast.walk(f):
+                    if isinstance(n, ast.Call):
+                        if isinstance(n.func, ast.Attribute):
+                            cs.add(n.func.attr)
+                        elif isinstance(n.func, ast.Name):
+                            cs.add(n.func.id)
+                    elif isinstance(n, ast.Attribute) and isinstance(n.ctx, (ast.Store, ast.Del)):
+                        ss.add(n.attr)
+                    elif isinstance(n, ast.With):
+                        for it in n.items:  # entering a context manager runs its __enter__/__exit__
+                            cs.update(("__enter__", "__exit__"))
+                # attribute loads may run properties: count every loaded attribute name that is a function somewhere
+                for n in ast.walk(f):
+                    if isinstance(n, ast.Attribute) and isinstance(n.ctx, ast.Load):
+                        cs.add(n.attr)
     _PROGRAM_INDEX.clear()
-    _PROGRAM_INDEX.update(defined=defined, bases=bases, intercepts=intercepts)
+    _PROGRAM_INDEX.update(defined=defined, bases=bases, intercepts=intercepts, calls=calls, stores=stores)
+
+
+def _attr_stable_from(fname: str, attr: str) -> bool:
+    """No function that can run while `fname` runs (name-based call closure, properties included) stores `.attr`."""
+    idx = _PROGRAM_INDEX
+    if not idx:
+        return False
+    calls, stores = idx["calls"], idx["stores"]
+    seen, work = set(), [fname]
+    while work:
+        f = work.pop()
+        if f in seen:
+            continue
+        seen.add(f)
+        if attr in stores.get(f, ()):
+            return False
+        work.extend(c for c in calls.get(f, ()) if c in calls and c not in seen)
+    return True
+
+
+def inline_local_aliases(tree: ast.Module, modname: str) -> List[str]:
+    """In functions that changed: a local bound once to an attribute path (`wlist = self.wlist`, `conn = module.conn`,
+    `remove_module = self.remove_module`, `clock = time.perf_counter`) - the bind-before-the-hot-loop idiom - is read as
+    the path itself.  Exact when every read of the local follows the binding in the same block, the path's root is not
+    re-bound in that block, and no function that can run meanwhile stores any attribute on the path (so the path would
+    evaluate to the same object at every read)."""
+    if not _PROGRAM_INDEX:
+        return []
+    out: List[str] = []
+    imported = set()
+    for st in tree.body:
+        if isinstance(st, ast.Import):
+            imported.update((a.asname or a.name).split(".")[0] for a in st.names)
+        elif isinstance(st, ast.ImportFrom):
+            imported.update(a.asname or a.name for a in st.names)
+    for d in changed_functions(tree, modname):
+        params = {a.arg for a in d.args.posonlyargs + d.args.args + d.args.kwonlyargs} | ({d.args.vararg.arg} if d.args.vararg else set()) | ({d.args.kwarg.arg} if d.args.kwarg else set())
+        nstores: Dict[str, int] = {}
+        for n in ast.walk(d):
+            if isinstance(n, ast.Name) and isinstance(n.ctx, (ast.Store, ast.Del)):
+                nstores[n.id] = nstores.get(n.id, 0) + 1
+            elif isinstance(n, (ast.Global, ast.Nonlocal)):
+                for k in n.names:
+                    nstores[k] = 99
+        done = []
+
+        def blocks(stmts):
+            yield stmts
+            for s_ in stmts:
+                if isinstance(s_, (ast.FunctionDef, ast.AsyncFunctionDef, ast.ClassDef)):
+                    continue
+                for fld in ("body", "orelse", "finalbody"):
+                    v = getattr(s_, fld, None)
+                    if isinstance(v, list) and v and isinstance(v[0], ast.stmt):
+                        yield from blocks(v)
+                for h in getattr(s_, "handlers", []) or []:
+                    yield from blocks(h.body)
+
+        progress = True
+        while progress:
+            progress = False
+            for blk in blocks(d.body):
+                for i, st in enumerate(blk):
+                    if not (isinstance(st, ast.Assign) and len(st.targets) == 1 and isinstance(st.targets[0], ast.Name) and isinstance(st.value, ast.Attribute)):
+                        continue
+                    x = st.targets[0].id
+                    if nstores.get(x) != 1 or x in params:
+                        continue
+                    path, attrs = st.value, []
+                    while isinstance(path, ast.Attribute):
+                        attrs.append(path.attr)
+                        path = path.value
+                    if not isinstance(path, ast.Name):
+                        continue
+                    root = path.id
+                    if root == x:
+                        continue
+                    after = blk[i + 1:]
+                    loads_after = sum(1 for t in after for n in ast.walk(t) if isinstance(n, ast.Name) and n.id == x and isinstance(n.ctx, ast.Load))
+                    loads_all = sum(1 for n in ast.walk(d) if isinstance(n, ast.Name) and n.id == x and isinstance(n.ctx, ast.Load))
+                    if loads_after != loads_all or loads_all == 0:
+                        continue
+                    # used inside a nested function / lambda / comprehension: the late read could see another value - fine
+                    # for a stable path, but keep it simple and leave those alone
+                    if any(isinstance(n, (ast.Lambda, ast.FunctionDef, ast.AsyncFunctionDef)) and any(isinstance(m, ast.Name) and m.id == x for m in ast.walk(n)) for t in after for n in ast.walk(t)):
+                        continue
+                    if any(isinstance(n, ast.Name) and n.id == root and isinstance(n.ctx, (ast.Store, ast.Del)) for t in after for n in ast.walk(t)):
+                        continue
+                    if root not in params and root not in imported and nstores.get(root, 0) > 1:
+                        continue
+                    if root in imported and nstores.get(root, 0) > 0:
+                        continue
+                    # a field of a ctypes message object built in this very function (`data = cd.MDF_X()`): assigning such
+                    # a field anywhere copies into the object's buffer and never re-binds it, so a view taken once and
+                    # the field read again address the same storage
+                    fresh_msg = len(attrs) == 1 and nstores.get(root) == 1 and any(
+                        isinstance(a_, ast.Assign) and len(a_.targets) == 1 and isinstance(a_.targets[0], ast.Name) and a_.targets[0].id == root and isinstance(a_.value, ast.Call)
+                        and ast.unparse(a_.value.func).split(".")[-1].startswith("MDF_") for a_ in ast.walk(d))
+                    if not fresh_msg and not all(_attr_stable_from(d.name, a) for a in attrs):
+                        continue
+                    sub = _Subst(names={x: st.value})
+                    blk[i + 1:] = [sub.visit(t) for t in after]
+                    del blk[i]
+                    if not blk:
+                        blk.append(ast.Pass())
+                    done.append(x)
+                    progress = True
+                    break
+                if progress:
+                    break
+        if done:
+            for b in d.body:
+                ast.fix_missing_locations(b)
+            out.append(f"{d.name}: local alias(es) {sorted(done)} of attribute paths read as the paths")
+    return out
 
 
 def _absent_in(cname: str) -> Callable[[str], bool]:
@@ -2986,6 +3124,343 @@ def undo_mixins(trees: Dict[str, ast.Module]) -> List[str]:
 # factory's parameters replaced by the arguments written at the decoration), calling the undecorated original - which the
 # helper expansion then writes in place.  Exact: this is what the decoration computes.
 # ======================================================================================================================
+def lower_expressions(tree: ast.Module, modname: str) -> List[str]:
+    """In functions that changed, three expression forms are read as the statements they abbreviate:
+         x = next((E for v in IT if C), D)     ->  x = D; for v in IT: if C: x = E; break
+         x = next(E for v in IT if C)          ->  for v in IT: if C: x = E; break   else: raise StopIteration
+         ... (n := E) ...  evaluated first     ->  n = E; ... n ...         (`while (n := E):` -> `while True: n = E; if not n: break`)
+         x = A if C else B  (after a hoist)    ->  if C: x = A else: x = B
+       All exact: the generator is consumed up to its first element only, a walrus in leftmost position is evaluated
+       before anything else in its statement."""
+    out: List[str] = []
+    for d in changed_functions(tree, modname):
+        names_in_d = {n.id for n in ast.walk(d) if isinstance(n, ast.Name)} | {a.arg for a in ast.walk(d) if isinstance(a, ast.arg)}
+        counter = [0]
+        notes: List[str] = []
+
+        def leftmost_walrus(e) -> Optional[ast.NamedExpr]:
+            cur = e
+            for _ in range(50):
+                if isinstance(cur, ast.NamedExpr):
+                    return cur
+                if isinstance(cur, ast.Compare):
+                    cur = cur.left
+                elif isinstance(cur, ast.BinOp):
+                    cur = cur.left
+                elif isinstance(cur, ast.BoolOp):
+                    cur = cur.values[0]
+                elif isinstance(cur, ast.IfExp):
+                    cur = cur.test
+                elif isinstance(cur, ast.UnaryOp):
+                    cur = cur.operand
+                else:
+                    return None
+            return None
+
+        def replace_node(root, old, new):
+            class R(ast.NodeTransformer):
+                def visit(self, n):
+                    if n is old:
+                        return new
+                    return super().visit(n)
+            return R().visit(root)
+
+        def lower_next(st) -> Optional[List[ast.stmt]]:
+            if not (isinstance(st, ast.Assign) and len(st.targets) == 1 and isinstance(st.value, ast.Call) and isinstance(st.value.func, ast.Name) and st.value.func.id == "next"
+                    and len(st.value.args) in (1, 2) and not st.value.keywords and isinstance(st.value.args[0], ast.GeneratorExp)):
+                return None
+            ge = st.value.args[0]
+            if len(ge.generators) != 1 or ge.generators[0].is_async:
+                return None
+            gen = ge.generators[0]
+            tvars = [n.id for n in ast.walk(gen.target) if isinstance(n, ast.Name)]
+            # the generator's own variable becomes a local of the function: it must not collide with one
+            others = {n.id for n in ast.walk(d) if isinstance(n, ast.Name) and not any(n is m for m in ast.walk(ge))} | {a.arg for a in ast.walk(d) if isinstance(a, ast.arg)}
+            ren = {}
+            for v in tvars:
+                if v in others:
+                    counter[0] += 1
+                    ren[v] = f"{v}__nx{counter[0]}"
+            elt, target, ifs = ge.elt, gen.target, list(gen.ifs)
+            if ren:
+                rn = _Rename({}, {a: ast.Name(id=b, ctx=ast.Load()) for a, b in ren.items()})
+                elt = rn.visit(copy.deepcopy(elt))
+                ifs = [rn.visit(copy.deepcopy(c)) for c in ifs]
+                target = copy.deepcopy(target)
+                for n in ast.walk(target):
+                    if isinstance(n, ast.Name) and n.id in ren:
+                        n.id = ren[n.id]
+            tgt = st.targets[0]
+            post: List[ast.stmt] = []
+            if not isinstance(tgt, ast.Name):
+                counter[0] += 1
+                tmp = f"_next{counter[0]}"
+                post = [ast.Assign(targets=[tgt], value=ast.Name(id=tmp, ctx=ast.Load()))]
+                tgt = ast.Name(id=tmp, ctx=ast.Store())
+            hit: List[ast.stmt] = [ast.Assign(targets=[copy.deepcopy(tgt)], value=elt), ast.Break()]
+            body: List[ast.stmt] = hit
+            if ifs:
+                test = ifs[0] if len(ifs) == 1 else ast.BoolOp(op=ast.And(), values=ifs)
+                body = [ast.If(test=test, body=hit, orelse=[])]
+            loop = ast.For(target=target, iter=gen.iter, body=body, orelse=[], type_comment=None)
+            pre: List[ast.stmt] = []
+            if len(st.value.args) == 2:
+                pre = [ast.Assign(targets=[copy.deepcopy(tgt)], value=st.value.args[1])]
+            else:
+                loop.orelse = [ast.Raise(exc=ast.Call(func=ast.Name(id="StopIteration", ctx=ast.Load()), args=[], keywords=[]), cause=None)]
+            res = pre + [loop] + post
+            for r in res:
+                ast.copy_location(r, st)
+                ast.fix_missing_locations(r)
+            notes.append("next(<generator>) read as a search loop")
+            return res
+
+        def fuse_found(lowered: List[ast.stmt], nxt: Optional[ast.stmt]) -> Optional[List[ast.stmt]]:
+            """x = None; for v in IT: if C(v.attr..): x = v; break   followed by   if x is not None: <raise/return ...>
+               ->  x = None; for v in IT: if C: x = v; <raise/return ...>
+               (v is an object whose attribute C reads, so it is not None when C held; the terminal body leaves the loop)"""
+            if nxt is None or len(lowered) != 2 or not isinstance(lowered[0], ast.Assign) or not isinstance(lowered[1], ast.For):
+                return None
+            pre, loop = lowered
+            if not (isinstance(pre.value, ast.Constant) and pre.value.value is None and isinstance(pre.targets[0], ast.Name)):
+                return None
+            x = pre.targets[0].id
+            if not (isinstance(nxt, ast.If) and not nxt.orelse and isinstance(nxt.test, ast.Compare) and len(nxt.test.ops) == 1 and isinstance(nxt.test.ops[0], ast.IsNot)
+                    and isinstance(nxt.test.left, ast.Name) and nxt.test.left.id == x and isinstance(nxt.test.comparators[0], ast.Constant) and nxt.test.comparators[0].value is None):
+                return None
+            if not nxt.body or not isinstance(nxt.body[-1], (ast.Raise, ast.Return)):
+                return None
+            if not (isinstance(loop.target, ast.Name) and len(loop.body) == 1 and isinstance(loop.body[0], ast.If)):
+                return None
+            v = loop.target.id
+            inner = loop.body[0]
+            hit = inner.body
+            if not (len(hit) == 2 and isinstance(hit[0], ast.Assign) and isinstance(hit[0].value, ast.Name) and hit[0].value.id == v and isinstance(hit[1], ast.Break)):
+                return None
+            if not any(isinstance(n, ast.Attribute) and isinstance(n.value, ast.Name) and n.value.id == v for n in ast.walk(inner.test)):
+                return None
+            inner.body = [hit[0]] + nxt.body
+            notes.append("found-then-refuse read as refuse-inside-the-search")
+            return [pre, loop]
+
+        def block(stmts: List[ast.stmt]) -> List[ast.stmt]:
+            res: List[ast.stmt] = []
+            skip_next = False
+            for idx, st in enumerate(stmts):
+                if skip_next:
+                    skip_next = False
+                    continue
+                if isinstance(st, (ast.FunctionDef, ast.AsyncFunctionDef, ast.ClassDef)):
+                    res.append(st)
+                    continue
+                hoisted = False
+                # walrus in leading position of a simple statement / if test
+                for _ in range(4):
+                    expr_field = None
+                    if isinstance(st, (ast.Assign, ast.AugAssign, ast.AnnAssign, ast.Return, ast.Expr)) and getattr(st, "value", None) is not None:
+                        expr_field = "value"
+                    elif isinstance(st, ast.If):
+                        expr_field = "test"
+                    if expr_field is None:
+                        break
+                    w = leftmost_walrus(getattr(st, expr_field))
+                    if w is None or not isinstance(w.target, ast.Name):
+                        break
+                    pre = ast.Assign(targets=[ast.Name(id=w.target.id, ctx=ast.Store())], value=w.value)
+                    ast.copy_location(pre, st)
+                    ast.fix_missing_locations(pre)
+                    setattr(st, expr_field, replace_node(getattr(st, expr_field), w, ast.copy_location(ast.Name(id=w.target.id, ctx=ast.Load()), w)))
+                    res.extend(block([pre]))
+                    hoisted = True
+                    notes.append("assignment expression hoisted")
+                if isinstance(st, ast.While) and not st.orelse:
+                    w = leftmost_walrus(st.test)
+                    if w is not None and isinstance(w.target, ast.Name):
+                        pre = ast.Assign(targets=[ast.Name(id=w.target.id, ctx=ast.Store())], value=w.value)
+                        test = replace_node(st.test, w, ast.copy_location(ast.Name(id=w.target.id, ctx=ast.Load()), w))
+                        brk = ast.If(test=ast.UnaryOp(op=ast.Not(), operand=test), body=[ast.Break()], orelse=[])
+                        st.test = ast.Constant(value=True)
+                        st.body = [pre, brk] + st.body
+                        for b in (pre, brk):
+                            ast.copy_location(b, st)
+                            ast.fix_missing_locations(b)
+                        notes.append("assignment expression in a while test hoisted")
+                if hoisted and isinstance(st, ast.Assign) and len(st.targets) == 1 and isinstance(st.value, ast.IfExp):
+                    node = ast.If(test=st.value.test, body=[ast.Assign(targets=[copy.deepcopy(st.targets[0])], value=st.value.body)],
+                                  orelse=[ast.Assign(targets=[copy.deepcopy(st.targets[0])], value=st.value.orelse)])
+                    ast.copy_location(node, st)
+                    ast.fix_missing_locations(node)
+                    st = node
+                ln = lower_next(st)
+                if ln is not None:
+                    fz = fuse_found(ln, stmts[idx + 1] if idx + 1 < len(stmts) else None)
+                    if fz is not None:
+                        res.extend(fz)
+                        skip_next = True
+                    else:
+                        res.extend(ln)
+                    continue
+                for fld in ("body", "orelse", "finalbody"):
+                    v = getattr(st, fld, None)
+                    if isinstance(v, list) and v and isinstance(v[0], ast.stmt):
+                        setattr(st, fld, block(v))
+                for h in getattr(st, "handlers", []) or []:
+                    h.body = block(h.body)
+                res.append(st)
+            return res
+
+        d.body = block(d.body)
+        if notes:
+            out.append(f"{d.name}: " + "; ".join(sorted(set(notes))))
+    return out
+
+
+def undo_singledispatch(tree: ast.Module) -> List[str]:
+    """`@functools.singledispatch` / `@singledispatchmethod` generic functions are read as the isinstance chain they stand
+    for: the generic function keeps its name and parameters, each registered implementation becomes one
+    `if isinstance(<dispatch argument>, <registered types>):` arm (implementations registered for a subclass of another
+    registered type first), the undecorated body is the final `else`.  Exact for concrete classes - dispatch on
+    type(arg).__mro__ picks the most specific registered class, which is what the ordered chain does.  Registrations
+    for abstract base classes (virtual subclasses) are not modelled: such a generic function is left as written."""
+    ABCS = {"Sequence", "Mapping", "Iterable", "Iterator", "Collection", "Container", "Sized", "Hashable", "Callable", "Number", "Integral", "Real", "Set", "MutableSequence",
+            "MutableMapping", "MutableSet", "ByteString", "Reversible", "Generator", "Awaitable", "Protocol"}
+    KNOWN_SUB = {("bool", "int")}
+    out: List[str] = []
+    bases = _PROGRAM_INDEX.get("bases", {}) if _PROGRAM_INDEX else {}
+
+    def descends(a: str, b: str, seen=()) -> bool:
+        if (a, b) in KNOWN_SUB:
+            return True
+        for x in bases.get(a, []):
+            if x == b or (x not in seen and descends(x, b, seen + (a,))):
+                return True
+        return False
+
+    def deco_name(d) -> str:
+        return ast.unparse(d.func if isinstance(d, ast.Call) else d)
+
+    def ann_types(a) -> Optional[List[ast.expr]]:
+        if a is None:
+            return None
+        if isinstance(a, (ast.Name, ast.Attribute)):
+            return [a]
+        if isinstance(a, ast.Subscript) and ast.unparse(a.value).split(".")[-1] == "Union":
+            el = a.slice.elts if isinstance(a.slice, ast.Tuple) else [a.slice]
+            return list(el) if all(isinstance(e, (ast.Name, ast.Attribute)) for e in el) else None
+        if isinstance(a, ast.BinOp) and isinstance(a.op, ast.BitOr):
+            l, r = ann_types(a.left), ann_types(a.right)
+            return l + r if l and r else None
+        return None
+
+    def process(body: List[ast.stmt], in_class: bool):
+        for g in [b for b in body if isinstance(b, ast.FunctionDef)]:
+            kinds = [deco_name(d).split(".")[-1] for d in g.decorator_list]
+            if not any(k in ("singledispatch", "singledispatchmethod") for k in kinds) or len(g.decorator_list) != 1:
+                continue
+            method = kinds[0] == "singledispatchmethod"
+            gparams = [a.arg for a in g.args.posonlyargs + g.args.args]
+            di = 1 if method else 0
+            if len(gparams) <= di or g.args.vararg or g.args.kwarg:
+                continue
+            disp = gparams[di]
+            impls = []
+            ok = True
+            for r in [b for b in body if isinstance(b, ast.FunctionDef) and b is not g]:
+                regs = [d for d in r.decorator_list if deco_name(d) == f"{g.name}.register"]
+                if not regs:
+                    continue
+                if len(regs) != len(r.decorator_list):
+                    ok = False
+                    break
+                types: List[ast.expr] = []
+                rparams = [a.arg for a in r.args.posonlyargs + r.args.args]
+                for d in regs:
+                    if isinstance(d, ast.Call) and len(d.args) == 1 and not d.keywords and isinstance(d.args[0], (ast.Name, ast.Attribute)):
+                        types.append(d.args[0])
+                    elif not isinstance(d, ast.Call) and len(rparams) > di:
+                        t = ann_types((r.args.posonlyargs + r.args.args)[di].annotation)
+                        if not t:
+                            ok = False
+                            break
+                        types.extend(t)
+                    else:
+                        ok = False
+                        break
+                if not ok or len(rparams) != len(gparams) or r.args.vararg or r.args.kwarg or [a.arg for a in r.args.kwonlyargs] != [a.arg for a in g.args.kwonlyargs]:
+                    ok = False
+                    break
+                if any(ast.unparse(t).split(".")[-1] in ABCS for t in types):
+                    ok = False
+                    break
+                impls.append((r, types, rparams))
+            if not ok or not impls:
+                continue
+            # a registered implementation that is referred to elsewhere by its own name stays defined
+            # more specific registrations first
+            def tname(t):
+                return ast.unparse(t).split(".")[-1]
+
+            order = list(impls)
+            changed = True
+            guard = 0
+            while changed and guard < 50:
+                changed = False
+                guard += 1
+                for i in range(len(order)):
+                    for j in range(i + 1, len(order)):
+                        if any(descends(tname(b_), tname(a_)) for a_ in order[i][1] for b_ in order[j][1]):
+                            order[i], order[j] = order[j], order[i]
+                            changed = True
+            chain: List[ast.stmt] = list(g.body)
+            for r, types, rparams in reversed(order):
+                ren = {a: b for a, b in zip(rparams, gparams) if a != b}
+                rb = [b for b in r.body if not (isinstance(b, ast.Expr) and isinstance(b.value, ast.Constant) and isinstance(b.value.value, str))] or [ast.Pass()]
+                if ren:
+                    # a parameter renamed onto a name the implementation uses otherwise would capture it
+                    used = {n.id for b in rb for n in ast.walk(b) if isinstance(n, ast.Name)}
+                    if any(v in used and v not in rparams for v in ren.values()):
+                        ok = False
+                        break
+                    rb = [_Rename({}, {a: ast.Name(id=b, ctx=ast.Load()) for a, b in ren.items()}).visit(copy.deepcopy(b)) for b in rb]
+                    for b in rb:
+                        for n in ast.walk(b):
+                            if isinstance(n, ast.Name) and n.id in ren and isinstance(n.ctx, (ast.Store, ast.Del)):
+                                n.id = ren[n.id]
+                tt = types[0] if len(types) == 1 else ast.Tuple(elts=list(types), ctx=ast.Load())
+                test = ast.Call(func=ast.Name(id="isinstance", ctx=ast.Load()), args=[ast.Name(id=disp, ctx=ast.Load()), copy.deepcopy(tt)], keywords=[])
+                node = ast.If(test=test, body=rb, orelse=chain)
+                ast.copy_location(node, r)
+                chain = [node]
+            if not ok:
+                continue
+            doc = [b for b in g.body[:1] if isinstance(b, ast.Expr) and isinstance(b.value, ast.Constant) and isinstance(b.value.value, str)]
+            if doc:
+                # the docstring stays in front, the rest of the generic body is the final else
+                inner = chain[0]
+                last = inner
+                while last.orelse and isinstance(last.orelse[0], ast.If) and last.orelse is not g.body and len(last.orelse) == 1 and last.orelse[0] is not None and last.orelse != g.body:
+                    last = last.orelse[0]
+                last.orelse = [b for b in g.body if b is not doc[0]] or [ast.Pass()]
+                g.body = doc + [inner]
+            else:
+                g.body = chain
+            g.decorator_list = []
+            refs = {n.id for n in ast.walk(tree) if isinstance(n, ast.Name)} | {n.attr for n in ast.walk(tree) if isinstance(n, ast.Attribute)}
+            for r, _, _ in impls:
+                if r.name == "_" or r.name not in refs:
+                    body.remove(r)
+                else:
+                    r.decorator_list = []
+            for b in g.body:
+                ast.fix_missing_locations(b)
+            out.append(f"{g.name}: single-dispatch generic function read as an isinstance chain over {len(impls)} registered implementation(s)")
+
+    process(tree.body, False)
+    for c in [c for c in ast.walk(tree) if isinstance(c, ast.ClassDef)]:
+        process(c.body, True)
+    return out
+
+
 def undo_decorators(tree: ast.Module, known: Set[str]) -> List[str]:
     out: List[str] = []
     funcs = {st.name: st for st in tree.body if isinstance(st, ast.FunctionDef)}
